@@ -58,6 +58,7 @@ def project(schema: dict[str, Any]) -> dict[str, Any]:
             "zones": zones,
             "stored_hotwater": {k: v for k, v in (tcs.get("stored_hotwater") or {}).items() if v},
             "appliance_control": (tcs.get("system") or {}).get("appliance_control"),
+            "ufh_controllers": sorted(tcs.get("underfloor_heating") or {}),  # (its controllers, of either kind)
         }
     return out
 
@@ -206,7 +207,7 @@ def validate(ctx, gwy, meta: dict[str, Any]) -> dict[str, Any] | None:
     return schema
 
 
-async def reload_check(loop, ctx, schema: dict[str, Any], cfg: dict[str, Any], meta: dict[str, Any]) -> None:
+async def reload_check(loop, ctx, schema: dict[str, Any], cfg: dict[str, Any], meta: dict[str, Any], generation: int = 1) -> None:
     from ramses_rf import Gateway
     from ramses_rf.helpers import shrink
 
@@ -234,6 +235,10 @@ async def reload_check(loop, ctx, schema: dict[str, Any], cfg: dict[str, Any], m
                 "a fresh gateway configured with the reported schema does not reproduce its controllers / zones / hot water / appliance control",
                 {"reported": a, "reloaded": b, "history": meta},
             )
+        elif generation < 2:
+            # what that gateway reports is saved and fed back in turn (the second restart of an installation)
+            ctx.count("reloads.second_generation")
+            await reload_check(loop, ctx, schema_b, cfg, dict(meta, reload_generation=generation + 1), generation + 1)
     if gwy_b is not None:
         try:
             await asyncio.wait_for(gwy_b.stop(), timeout=5)
